@@ -1127,7 +1127,16 @@ func init() {
 			if !ok {
 				fr.i.abort("unsupported", "big.Int.SetString of symbolic string")
 			}
-			r, ok2 := new(big.Int).SetString(s, args[2].(int))
+			base, isInt := args[2].(int)
+			if !isInt {
+				// a symbolic base: fork over the bases the library accepts (0 and 2..62); anything else panics there
+				sv, isSym := args[2].(sym)
+				if !isSym {
+					fr.i.abort("unsupported", "big.Int.SetString with an unexpected base value")
+				}
+				base = int(fr.i.concretize(sv.e, 0, 62))
+			}
+			r, ok2 := new(big.Int).SetString(s, base)
 			if !ok2 {
 				return tuple{(*value)(nil), false}
 			}
